@@ -7,12 +7,14 @@ import (
 	"io"
 	"net"
 	"net/netip"
+	"runtime"
 	"strconv"
 	"strings"
 	"sync"
 	"sync/atomic"
 	"syscall"
 	"time"
+	"unsafe"
 
 	"golang.org/x/net/dns/dnsmessage"
 
@@ -80,6 +82,8 @@ type lookupRec struct {
 	udpQueries int
 	tcpConns   int
 	tcpStart   time.Time
+	tcpClosed  int // handlers that have returned
+	tcpHanging int // handlers that keep a connection open and silent although an asked query is still unanswered
 	tcpAsked   [2]bool
 	tcpQueries int
 	log        []*sentRec
@@ -94,6 +98,8 @@ type upstream struct {
 	tcp      *net.TCPListener
 	oip      *net.UDPConn // 127.0.0.2, same port as the server
 	oport    *net.UDPConn // 127.0.0.1, another port
+	probe    *net.UDPConn // receives the harness's own flush markers
+	probeAP  netip.AddrPort
 	addr     netip.AddrPort
 	mu       sync.Mutex
 	cur      *lookupRec
@@ -126,6 +132,14 @@ func newUpstream() (*upstream, error) {
 			u.oip.Close()
 			continue
 		}
+		if u.probe, err = net.ListenUDP("udp4", &net.UDPAddr{IP: net.IPv4(127, 0, 0, 1)}); err != nil {
+			u.udp.Close()
+			u.tcp.Close()
+			u.oip.Close()
+			u.oport.Close()
+			continue
+		}
+		u.probeAP = u.probe.LocalAddr().(*net.UDPAddr).AddrPort()
 		u.addr = netip.AddrPortFrom(netip.AddrFrom4([4]byte{127, 0, 0, 1}), uint16(p[0]))
 		go u.udpLoop()
 		go u.tcpLoop()
@@ -140,6 +154,55 @@ func (u *upstream) close() {
 	u.tcp.Close()
 	u.oip.Close()
 	u.oport.Close()
+	u.probe.Close()
+}
+
+// recvNow takes one datagram out of c without ever blocking or parking the goroutine.
+func recvNow(c *net.UDPConn) bool {
+	rc, err := c.SyscallConn()
+	if err != nil {
+		return false
+	}
+	n := -1
+	rc.Read(func(fd uintptr) bool {
+		var b [16]byte
+		n, _, _ = syscall.Recvfrom(int(fd), b[:], syscall.MSG_DONTWAIT)
+		return true
+	})
+	return n >= 0
+}
+
+// flushLoopback makes sure that the datagram just sent from src has gone through the kernel's receive path: loopback
+// delivery is normally complete when sendto returns, but under load it can be deferred (per-CPU backlog, ksoftirqd).
+// A marker datagram sent right behind it from the same thread queues behind it; once the marker has arrived at the
+// harness's own probe socket, the datagram before it has been delivered as well. Without this, the virtual clock
+// could jump (all goroutines idle) while an answer is still on its way, and the answer would look "unanswered".
+func (u *upstream) flushLoopback(src *net.UDPConn) {
+	for recvNow(u.probe) {
+	}
+	if _, err := src.WriteToUDPAddrPort([]byte{0x17}, u.probeAP); err != nil {
+		return
+	}
+	svx.Poll(100*time.Millisecond, func() bool { return recvNow(u.probe) })
+}
+
+// waitAcked waits until everything written to c has been taken over by the peer's TCP (send queue empty), i.e. the
+// bytes are readable at the resolver's end.
+func waitAcked(c *net.TCPConn) {
+	rc, err := c.SyscallConn()
+	if err != nil {
+		return
+	}
+	svx.Poll(200*time.Millisecond, func() bool {
+		pending := 0
+		rc.Control(func(fd uintptr) {
+			v := int32(0)
+			if _, _, e := syscall.Syscall(syscall.SYS_IOCTL, fd, syscall.TIOCOUTQ, uintptr(unsafe.Pointer(&v))); e == 0 {
+				pending = int(v)
+			}
+		})
+		return pending == 0
+	})
 }
 
 // begin installs the script of the next lookup.
@@ -153,7 +216,7 @@ func (u *upstream) begin(name string, sc *script) *lookupRec {
 
 // end waits until nothing is in flight any more and detaches the record.
 func (u *upstream) end() (quiet bool) {
-	quiet = svx.Poll(300*time.Millisecond, func() bool {
+	quiet = svx.Poll(2*time.Second, func() bool {
 		if u.busy.Load() != 0 {
 			return false
 		}
@@ -217,6 +280,92 @@ func (l *lookupRec) nextWake(now time.Time) (d time.Duration, started bool) {
 	return d, true
 }
 
+// expect names the observable event that must follow WITHOUT any virtual time passing, if the resolver does what
+// the statement says; the driver waits for it (bounded, real time) before it lets the clock move. It is only a
+// waiting hint: a resolver that does not deliver the event is judged by the oracle, not here.
+//
+//	"tcp":  UDP is over (unusable / truncated datagram from the server, or its 20 s are up) and no TCP connection yet
+//	"done": both queries have an acceptable UDP answer
+//	"next": TCP is in use and no connection is being kept open silently with a query unanswered: the call ends or
+//	        connects again (or the upstream is still busy writing)
+func (l *lookupRec) expect(now time.Time) (what string, tcpConns int) {
+	l.mu.Lock()
+	defer l.mu.Unlock()
+	if l.tcpConns > 0 {
+		if l.tcpHanging > 0 {
+			return "", l.tcpConns // the resolver can only wait for its timeout
+		}
+		return "next", l.tcpConns
+	}
+	var acc [2]bool
+	for _, s := range l.log {
+		if s.Tr != "udp" || s.Src != "server" {
+			continue
+		}
+		if s.R.Fuzz {
+			return "", 0 // mutated bytes: unknown whether the resolver can use them
+		}
+		if !acceptable(s) {
+			return "tcp", 0
+		}
+		acc[famIdx(s.R.FamID)] = true
+	}
+	if acc[0] && acc[1] {
+		return "done", 0
+	}
+	if l.udpQueries > 0 && !now.Before(l.t0.Add(transportTime)) {
+		return "tcp", 0
+	}
+	return "", 0
+}
+
+// netQuiet reports that no TCP handshake and no unread / unacknowledged TCP data involving the upstream's port is
+// under way (from /proc/net/tcp): the precondition for letting virtual time pass.
+func netQuiet(port uint16) bool {
+	bp := procBuf.Get().(*[]byte)
+	defer procBuf.Put(bp)
+	fd, err := syscall.Open("/proc/net/tcp", syscall.O_RDONLY, 0)
+	if err != nil {
+		return true
+	}
+	n := 0
+	for n < len(*bp) {
+		k, err := syscall.Read(fd, (*bp)[n:])
+		if k <= 0 || err != nil {
+			break
+		}
+		n += k
+	}
+	syscall.Close(fd)
+	var suffix [5]byte
+	suffix[0] = ':'
+	const hexd = "0123456789ABCDEF"
+	suffix[1], suffix[2], suffix[3], suffix[4] = hexd[port>>12], hexd[port>>8&15], hexd[port>>4&15], hexd[port&15]
+	data := (*bp)[:n]
+	var farr [8][]byte
+	for len(data) > 0 {
+		var ln []byte
+		if i := bytes.IndexByte(data, '\n'); i >= 0 {
+			ln, data = data[:i], data[i+1:]
+		} else {
+			ln, data = data, nil
+		}
+		f := fieldsN(ln, 5, &farr)
+		if len(f) < 5 || !(bytes.HasSuffix(f[1], suffix[:]) || bytes.HasSuffix(f[2], suffix[:])) {
+			continue
+		}
+		switch string(f[3]) {
+		case "02", "03": // SYN_SENT, SYN_RECV
+			return false
+		case "01", "0A": // ESTABLISHED, LISTEN (rx_queue = connections waiting to be accepted)
+			if string(f[4]) != "00000000:00000000" {
+				return false
+			}
+		}
+	}
+	return true
+}
+
 func (l *lookupRec) ev(format string, a ...any) {
 	l.mu.Lock()
 	defer l.mu.Unlock()
@@ -254,6 +403,7 @@ func rxQueue(v6 bool, port uint16, hexAddr string) (q int, found bool) {
 	const hexd = "0123456789ABCDEF"
 	suffix[1], suffix[2], suffix[3], suffix[4] = hexd[port>>12], hexd[port>>8&15], hexd[port>>4&15], hexd[port&15]
 	data := (*bp)[:n]
+	var farr [8][]byte
 	for len(data) > 0 {
 		var ln []byte
 		if i := bytes.IndexByte(data, '\n'); i >= 0 {
@@ -262,7 +412,7 @@ func rxQueue(v6 bool, port uint16, hexAddr string) (q int, found bool) {
 			ln, data = data, nil
 		}
 		// fields: sl local_address rem_address st tx_queue:rx_queue ...
-		f := fieldsN(ln, 5)
+		f := fieldsN(ln, 5, &farr)
 		if len(f) < 5 || !bytes.HasSuffix(f[1], suffix[:]) {
 			continue
 		}
@@ -281,8 +431,7 @@ func rxQueue(v6 bool, port uint16, hexAddr string) (q int, found bool) {
 var procBuf = sync.Pool{New: func() any { b := make([]byte, 256<<10); return &b }}
 
 // fieldsN returns the first n space-separated fields of ln without allocating per field.
-func fieldsN(ln []byte, n int) [][]byte {
-	var arr [8][]byte
+func fieldsN(ln []byte, n int, arr *[8][]byte) [][]byte {
 	out := arr[:0]
 	for len(ln) > 0 && len(out) < n {
 		for len(ln) > 0 && ln[0] == ' ' {
@@ -321,6 +470,8 @@ type udpQuery struct {
 }
 
 func (u *upstream) udpLoop() {
+	// one OS thread for all sends: the flush marker must take the same path as the datagram before it
+	runtime.LockOSThread()
 	buf := make([]byte, 4096)
 	for {
 		n, from, err := u.udp.ReadFromUDPAddrPort(buf)
@@ -458,6 +609,7 @@ func (u *upstream) reactUDP(l *lookupRec, q udpQuery) {
 		l.add(rec)
 		l.ev("udp sent #%d %s/%s fam=%d id=%d", rec.Seq, it.Src, it.R.Kind, it.R.Fam, it.R.ID)
 		u.activity.Add(1)
+		u.flushLoopback(c)
 		waitDrained(dest.Port())
 	}
 	for _, it := range st.Pre {
@@ -508,8 +660,11 @@ func (u *upstream) tcpLoop() {
 					u.busy.Add(-1)
 				}
 			})
+			l.mu.Lock()
+			l.tcpClosed++
+			l.mu.Unlock()
+			u.activity.Add(1)
 			if !parked {
-				u.activity.Add(1)
 				u.busy.Add(-1)
 			}
 		}()
@@ -572,6 +727,7 @@ func (u *upstream) serveTCP(l *lookupRec, c *net.TCPConn, k int, park func()) {
 	if len(asked) == 2 && asked[1] == cs.First {
 		asked[0], asked[1] = asked[1], asked[0]
 	}
+	unanswered := len(asked)
 	for _, fam := range asked {
 		it := cs.Items[famIdx(fam)]
 		if it == nil {
@@ -596,8 +752,14 @@ func (u *upstream) serveTCP(l *lookupRec, c *net.TCPConn, k int, park func()) {
 		} else if len(frame) > 0 {
 			_, err = c.Write(frame)
 		}
+		if err == nil {
+			waitAcked(c)
+		}
 		rec := &sentRec{Tr: "tcp", Conn: k, Src: "server", R: it.R, At: vtime.Now(), Complete: complete && err == nil}
 		l.add(rec)
+		if acceptable(rec) {
+			unanswered--
+		}
 		l.ev("tcp conn #%d sent #%d %s fam=%d id=%d complete=%v", k, rec.Seq, it.R.Kind, it.R.Fam, it.R.ID, rec.Complete)
 		u.activity.Add(1)
 		if !complete {
@@ -606,6 +768,16 @@ func (u *upstream) serveTCP(l *lookupRec, c *net.TCPConn, k int, park func()) {
 	}
 	if cs.Term == "hang" {
 		// keep the connection open and silent until the resolver gives up (it closes, we see EOF)
+		if unanswered > 0 {
+			l.mu.Lock()
+			l.tcpHanging++
+			l.mu.Unlock()
+			defer func() {
+				l.mu.Lock()
+				l.tcpHanging--
+				l.mu.Unlock()
+			}()
+		}
 		park()
 		io.Copy(io.Discard, c)
 		l.ev("tcp conn #%d: peer closed", k)
